@@ -165,12 +165,12 @@ def oracle(ck):
 
 
 def run(ck):
-    ck.build_theorems("Properties/C16.v", deps=["Lagrange.vo", "KernRun.vo"])
+    ck.build_theorems("Properties/C16.v", deps=["Lagrange.vo", "LagrangeAll.vo", "KernRun.vo"])
     correspondence(ck)
     oracle(ck)
     ck.cov["rule"] = "orders {1..111}, shifts {fractional, integer, larger than the record, zero}, polynomial records, per-sample shift vectors; taps bit-exact vs model; exact-rational model vs textbook product"
     ck.samples = [dict(order=31, shift=2.37), dict(order=111, shift=-0.5)]
-    ck.assumptions += ["PARTIAL: textbook identity proved for orders 1 and 3 only; other orders by exact-rational evaluation at 2*halfp+1 points (a test)", "np.correlate / einsum summation order (outputs compared within 1e-11)"]
+    ck.assumptions += ["np.correlate / einsum summation order (outputs compared within 1e-11)"]
 
 
 def replay(rec):
